@@ -85,6 +85,78 @@ Theorem C09_never_stalls_full : forall (c : cfg) (da : list hinfo) (h : list ite
 Proof. exact served_thm. Qed.
 Print Assumptions C09_never_stalls_full.
 
+(* ==== the loop with its two wake-up channels (Model/Retriever.v: lturn, lrun) ==========================
+   [ls] = the loop's state: cursor, unused DA, whether m.retrieveCh (DA-block ticks, capacity 1) and the
+   loop's own blobsFoundCh (continuation token, capacity 1) hold a value; [ts] = what the environment decides
+   turn by turn: which of two ready channels `select` takes, and whether a tick arrives while the turn runs.
+   Quantified over ALL such sequences: every interleaving of ticks with iterations, every resolution of
+   select's choice. *)
+
+(* The re-arm of blobsFoundCh never blocks the loop: from a running loop no sequence of turns leads to a
+   loop goroutine waiting for ever in its own send (the send is `select { case ch <- v: default: }`; a
+   blocking send would, see ex_blocking_rearm_would_stall below). *)
+Theorem C09_rearm_never_blocks_full : forall (c : cfg) (ts : list turn) (ls : lstate),
+  l_stuck ls = false -> l_stuck (fst (lrun RNonBlocking c ls ts)) = false.
+Proof. exact never_blocks_thm. Qed.
+Print Assumptions C09_rearm_never_blocks_full.
+
+(* A pending wake-up is always served — tick or token, whichever select takes, with or without a tick
+   arriving meanwhile: the turn makes exactly one iteration, at the cursor's height; the loop keeps running;
+   if the height was passed the cursor moved by one AND the token is in blobsFoundCh again, so the next select
+   does not wait for a DA-block tick; otherwise the cursor stays. *)
+Theorem C09_wakeup_served_full : forall (c : cfg) (ls : lstate) (t : turn),
+  l_stuck ls = false -> l_tick ls || l_tok ls = true ->
+  exists r, snd (lturn RNonBlocking c ls t) = [r] /\
+            i_height r = s_cursor (l_scan ls) /\ i_loop r = true /\
+            l_stuck (fst (lturn RNonBlocking c ls t)) = false /\
+            s_cursor (l_scan (fst (lturn RNonBlocking c ls t))) = i_next r /\
+            (i_result r = PNil -> l_tok (fst (lturn RNonBlocking c ls t)) = true /\ i_next r = i_height r + 1) /\
+            (i_result r <> PNil -> i_next r = i_height r).
+Proof. exact turn_served_thm. Qed.
+Print Assumptions C09_wakeup_served_full.
+
+(* Ticks and select's choices decide only HOW MANY wake-ups get served, never what an iteration does: the
+   iterations of any run of the two-channel loop are an initial part of the iterations of k wake-ups of the
+   merged model, for some k — so everything proved above about [iterations] holds of every interleaving. *)
+Theorem C09_ticks_refine_full : forall (c : cfg) (da : list hinfo) (tick : bool) (ts : list turn),
+  exists k, is_prefix (literations RNonBlocking c (linit c da tick) ts) (iterations c da (repeat ISignal k)).
+Proof. exact ticks_refine_thm. Qed.
+Print Assumptions C09_ticks_refine_full.
+
+(* C09_cursor_full / C09_emits_full for every interleaving *)
+Theorem C09_ticks_cursor_full : forall (c : cfg) (da : list hinfo) (tick : bool) (ts : list turn),
+  let its := literations RNonBlocking c (linit c da tick) ts in
+  linked (boot c) its /\ Forall rec_ok its /\
+  Forall (fun r => emits_ok c r /\ i_blobs r = content c da (i_height r)) its /\
+  s_cursor (l_scan (fst (lrun RNonBlocking c (linit c da tick) ts))) = last_next (boot c) its.
+Proof. exact ticks_cursor_thm. Qed.
+Print Assumptions C09_ticks_cursor_full.
+
+(* C09_no_skip_full for every interleaving *)
+Theorem C09_ticks_no_skip_full : forall (c : cfg) (da : list hinfo) (tick : bool) (ts : list turn) (n : N),
+  boot c <= n < s_cursor (l_scan (fst (lrun RNonBlocking c (linit c da tick) ts))) ->
+  exists r, In r (literations RNonBlocking c (linit c da tick) ts) /\ i_height r = n /\ i_next r = n + 1 /\
+            i_loop r = true /\ i_result r = PNil /\
+            (last (i_classes r) AError = ASuccess \/ last (i_classes r) AError = ANotFound) /\
+            i_events r = (if succeeded (i_classes r) then genuine_events c n (content c da n) else []).
+Proof. exact ticks_no_skip_thm. Qed.
+Print Assumptions C09_ticks_no_skip_full.
+
+(* Catch-up is not stalled by ticks: with a wake-up pending and [pre] heights ahead that the DA serves at
+   the first iteration, after as many turns — any ticks during them, any choices of select — the cursor
+   stands at their end, each turn made one iteration, the loop is running and (if it moved at all) the
+   token is armed for the height after them. *)
+Theorem C09_catch_up_full : forall (c : cfg) (pre rest : list hinfo) (cur : N) (tick tok : bool) (ts : list turn),
+  tick || tok = true -> all_pass c cur pre -> length ts = length pre ->
+  let ls' := fst (lrun RNonBlocking c {| l_scan := {| s_cursor := cur; s_rest := pre ++ rest |};
+                                         l_tick := tick; l_tok := tok; l_stuck := false |} ts) in
+  s_cursor (l_scan ls') = cur + N.of_nat (length pre) /\ s_rest (l_scan ls') = rest /\
+  l_stuck ls' = false /\ l_tok ls' = (match pre with [] => tok | _ => true end) /\
+  length (literations RNonBlocking c {| l_scan := {| s_cursor := cur; s_rest := pre ++ rest |};
+                                        l_tick := tick; l_tok := tok; l_stuck := false |} ts) = length pre.
+Proof. exact catch_up_thm. Qed.
+Print Assumptions C09_catch_up_full.
+
 (* ---- non-vacuity -------------------------------------------------------------------------------------- *)
 Definition many (n : nat) : list blob := map (fun i => BJunk (N.of_nat i)) (seq 0 n).
 
@@ -121,4 +193,33 @@ Definition wit_da : list hinfo := [ {| h_blobs := [BHeader 1; BDataNoMeta 2; BDa
 Example ex_former_crash :
   map (fun r => (i_height r, i_result r, i_events r, i_marks r, i_next r)) (iterations wit_cfg wit_da [ISignal; ISignal]) =
   [ (7, PNil, [EHeader 1 7; EData 3 7], [MHeader 1 7; MData 3 7], 8); (8, PFuture, [], [], 8); (8, PFuture, [], [], 8) ].
+Proof. vm_compute. reflexivity. Qed.
+
+(* ---- ticks during a catch-up run ---------------------------------------------------------------------- *)
+Definition cu_cfg : cfg := {| c_stored := 0; c_start := 100; c_seen_h := []; c_seen_d := [] |}.
+Definition cu_da : list hinfo := repeat {| h_blobs := []; h_outs := [OOk] |} 6.   (* heights 100..105 are empty *)
+Definition tk (pick tick : bool) : turn := {| t_pick_tick := pick; t_tick := tick |}.
+(* a tick arrives during the first iteration; at the second turn both channels are ready and select takes
+   the tick, leaving the token in blobsFoundCh; the third height's re-arm finds the channel full *)
+Definition cu_turns : list turn := [tk false true; tk true false; tk false false; tk false false; tk false false;
+                                    tk false false; tk false false; tk false false; tk false false].
+
+Example ex_all_pass : all_pass cu_cfg 100 cu_da.
+Proof. vm_compute. repeat split. Qed.
+
+(* the code: the re-arm after height 101 finds blobsFoundCh full and drops the signal; the cursor reaches the
+   DA head 106, finds it from the future, and the loop goes back to waiting with both channels empty *)
+Example ex_tick_during_catch_up :
+  let '(ls, rr) := lrun RNonBlocking cu_cfg (linit cu_cfg cu_da true) cu_turns in
+  (s_cursor (l_scan ls), l_tick ls, l_tok ls, l_stuck ls, map (fun r => (i_height r, i_result r)) (concat rr)) =
+  (106, false, false, false,
+   [(100, PNil); (101, PNil); (102, PNil); (103, PNil); (104, PNil); (105, PNil); (106, PFuture)]).
+Proof. vm_compute. reflexivity. Qed.
+
+(* NOT the code: were the re-arm a send that waits for room, the same turns leave the loop blocked for ever
+   after height 101 with heights 102..105 never examined — the premise RNonBlocking of the theorems above
+   is what keeps the scan alive, and the correspondence check compares it with the real loop *)
+Example ex_blocking_rearm_would_stall :
+  let '(ls, rr) := lrun RBlocking cu_cfg (linit cu_cfg cu_da true) cu_turns in
+  (l_stuck ls, map (fun r => i_height r) (concat rr)) = (true, [100; 101]).
 Proof. vm_compute. reflexivity. Qed.
